@@ -369,6 +369,65 @@ func pubsubHarness(rc *RunCtx) {
 				}
 			}
 		}
+		// a scope with two prefix variables: (tenant, app) and (app, tenant) are different topics, and what the
+		// publisher's middleware sees in positions 1 and 2 is what the caller passed there
+		regionalCheck := func() {}
+		if tp.Intn("regional", 4) == 3 {
+			rc.Fault("scope-with-two-prefix-variables")
+			ten, app := []string{"acme", "zeta", "a.b"}[tp.Intn("regional", 3)], []string{"mail", "billing", "x-1"}[tp.Intn("regional", 3)]
+			var sawArgs []string
+			argMW := func(next frugal.InvocationHandler) frugal.InvocationHandler {
+				return func(svc reflect.Value, method reflect.Method, args frugal.Arguments) frugal.Results {
+					if len(args) >= 4 {
+						sawArgs = append(sawArgs, fmt.Sprintf("%v/%v", args[1], args[2]))
+					}
+					return next(svc, method, args)
+				}
+			}
+			rpub := simsvc.NewRegionalPublisher(provider, argMW)
+			if err := rpub.Open(); err != nil {
+				infra = "regional publisher open: " + err.Error()
+			}
+			rsub := simsvc.NewRegionalSubscriber(provider)
+			var gotStraight, gotSwapped []int64
+			var hdrStraight []string
+			if _, err := rsub.SubscribeMoved(ten, app, func(fctx frugal.FContext, it *simsvc.Item) {
+				gotStraight = append(gotStraight, it.ID)
+				a, _ := fctx.RequestHeader("_topic_tenant")
+				b, _ := fctx.RequestHeader("_topic_app")
+				hdrStraight = append(hdrStraight, a+"/"+b)
+			}); err != nil {
+				infra = "regional subscribe: " + err.Error()
+			}
+			if _, err := rsub.SubscribeMoved(app, ten, func(fctx frugal.FContext, it *simsvc.Item) { gotSwapped = append(gotSwapped, it.ID) }); err != nil {
+				infra = "regional subscribe (swapped): " + err.Error()
+			}
+			settle(10 * time.Millisecond)
+			for i := int64(0); i < 2; i++ {
+				if err := rpub.PublishMoved(frugal.NewFContext("r"), ten, app, genItem(tp, 70000+i)); err != nil {
+					rc.Violate("C07", "publish-failed", key+" regional", err.Error())
+				}
+			}
+			regionalCheck = func() {
+				sort.Slice(gotStraight, func(i, j int) bool { return gotStraight[i] < gotStraight[j] }) // (order is a single-worker matter, checked elsewhere)
+				if fmt.Sprint(gotStraight) != "[70000 70001]" || len(gotSwapped) != 0 {
+					rc.Violate("C07", "topic-isolation", key+" two prefix variables", fmt.Sprintf("published Moved(%q, %q) twice: the subscriber of (%q, %q) got %v, the subscriber of (%q, %q) got %v", ten, app, ten, app, gotStraight, app, ten, gotSwapped))
+				}
+				for _, h := range hdrStraight {
+					if h != ten+"/"+app {
+						rc.Violate("C09", "pubsub-context-differs", key+" topic variables", fmt.Sprintf("subscriber of (%q, %q) saw _topic_tenant/_topic_app = %s", ten, app, h))
+					}
+				}
+				for _, a := range sawArgs {
+					if a != ten+"/"+app {
+						rc.Violate("C16", "publisher-middleware-arguments", key, fmt.Sprintf("PublishMoved(ctx, %q, %q, item): the publisher's middleware saw arguments 1 and 2 as %s", ten, app, a))
+					}
+				}
+				if len(sawArgs) != 2 {
+					rc.Violate("C16", "publisher-middleware-trace", key+" regional", fmt.Sprintf("two publishes, middleware invoked %d times", len(sawArgs)))
+				}
+			}
+		}
 		nPre := 1 + tp.Intn("ops", rc.Scale(10, 30))
 		burst := tp.Intn("burst", 10) == 9
 		if burst {
@@ -474,6 +533,7 @@ func pubsubHarness(rc *RunCtx) {
 		}
 		settle(2 * time.Second)
 		rawTopicsCheck()
+		regionalCheck()
 		for i := 0; i < nInflight; i++ {
 			publish("inflight")
 		}
